@@ -27,6 +27,26 @@ Inductive sitem :=
          (after : list (b64 * bytes * b64 * bytes))   (* res.Values after Apply *)
 | SUnit (u val : bytes) (recs : list (Z * option (bytes * bytes * bytes))).
 
+(** the members of a [.unit] term: literals and regexps; regexp.MatchString is
+    an oracle table (pattern, candidate, result) recorded by the harness *)
+Inductive fterm := TLit (l : bytes) | TRe (p : bytes).
+Definition re_oracle := list (bytes * bytes * bool).
+
+Definition re_find (orc : re_oracle) (p u : bytes) : option bool :=
+  match find (fun e => beq (fst (fst e)) p && beq (snd (fst e)) u) orc with
+  | Some e => Some (snd e)
+  | None => None
+  end.
+Definition term_match (orc : re_oracle) (t : fterm) (u : bytes) : bool :=
+  match t with
+  | TLit l => beq l u
+  | TRe p => match re_find orc p u with Some b => b | None => false end
+  end.
+(** [.unit:(t1 OR t2 ...)] is the OR of [.unit:t1], [.unit:t2], ...; on one
+    measurement that is one matcher: some member names the unit *)
+Definition terms_match (orc : re_oracle) (ts : list fterm) (u : bytes) : bool :=
+  existsb (fun t => term_match orc t u) ts.
+
 Inductive case :=
 | KTable (space : list (N * N)) (c_1em9 c_1e6 c_1e9 : b64)
 | KUnit (u : bytes) (v : b64)
@@ -35,7 +55,10 @@ Inductive case :=
         (rd : option (list oval))        (* the reader's Values for "BenchmarkX 1 v u" *)
         (md : option mobs)
         (fl : list (bytes * bool))       (* literal, does .unit:literal keep the value *)
-| KSeq (lit : bytes) (items : list sitem) (gets : list (bytes * option (bytes * bytes * bytes))).
+| KSeq (lit : bytes) (items : list sitem) (gets : list (bytes * option (bytes * bytes * bytes)))
+| KSeqF (terms : list fterm) (orc : re_oracle) (items : list sitem)
+        (gets : list (bytes * option (bytes * bytes * bytes)))
+| KTidySeq (calls : list (bytes * b64 * (b64 * bytes))).   (* Tidy(v, u) = (tv, tu), in call order *)
 
 (* not Sx.as_N: it uses Z.to_N, whose extracted name collides with the
    driver's use of Byte.to_N (reported) *)
@@ -49,6 +72,17 @@ Definition as_oval (s : sx) : option oval :=
   end.
 Definition as_ometa (s : sx) : option ometa := as_triple as_b as_b as_b s.
 Definition as_fb (s : sx) : option (b64 * bytes) := as_pair as_f64 as_b s.
+
+Definition as_sitem (s : sx) : option sitem :=
+  match s with
+  | SL [SZ 0; wr; mb; kept; after] =>
+      do wr <- as_list (as_pair as_b as_f64) wr; do mb <- as_list as_bool mb;
+      do kept <- as_bool kept; do after <- as_list as_oval after;
+      Some (SBench wr mb kept after)
+  | SL [SZ 1; SB u; SB v; recs] =>
+      do recs <- as_list (as_pair as_z (as_opt as_ometa)) recs; Some (SUnit u v recs)
+  | _ => None
+  end.
 
 Definition decode (s : sx) : option case :=
   match s with
@@ -69,16 +103,21 @@ Definition decode (s : sx) : option case :=
       do fl <- as_list (as_pair as_b as_bool) fl;
       Some (KUnit u v t1 t2 rd md fl)
   | SL [SZ 2; SB lit; items; gets] =>
-      do items <- as_list (fun s => match s with
-          | SL [SZ 0; wr; mb; kept; after] =>
-              do wr <- as_list (as_pair as_b as_f64) wr; do mb <- as_list as_bool mb;
-              do kept <- as_bool kept; do after <- as_list as_oval after;
-              Some (SBench wr mb kept after)
-          | SL [SZ 1; SB u; SB v; recs] =>
-              do recs <- as_list (as_pair as_z (as_opt as_ometa)) recs; Some (SUnit u v recs)
-          | _ => None end) items;
+      do items <- as_list as_sitem items;
       do gets <- as_list (as_pair as_b (as_opt as_ometa)) gets;
       Some (KSeq lit items gets)
+  | SL [SZ 3; terms; orc; items; gets] =>
+      do terms <- as_list (fun s => match s with
+          | SL [SZ 0; SB l] => Some (TLit l)
+          | SL [SZ 1; SB p] => Some (TRe p)
+          | _ => None end) terms;
+      do orc <- as_list (as_triple as_b as_b as_bool) orc;
+      do items <- as_list as_sitem items;
+      do gets <- as_list (as_pair as_b (as_opt as_ometa)) gets;
+      Some (KSeqF terms orc items gets)
+  | SL [SZ 4; calls] =>
+      do calls <- as_list (as_triple as_b as_f64 as_fb) calls;
+      Some (KTidySeq calls)
   | _ => None
   end.
 
@@ -111,16 +150,18 @@ Definition recs_eqb (a b : list (Z * option ometa)) : bool :=
 
 (** the sequence: every line judged on its own; the unit table threaded.
     [tidyf] maps a written unit to the table's key (model: Tidy; spec: the rewrite),
-    [rv] gives the value a reader must report. *)
+    [rv] gives the value a reader must report, [mt] is the term's matcher on
+    a unit name (a measurement is kept iff [mt] holds of its base unit or of
+    its written unit: [unit_match]). *)
 Definition seq_ok (tidyf : bytes -> bytes) (rv : b64 -> bytes -> value)
-           (lit : bytes) (items : list sitem) (gets : list (bytes * option ometa)) : bool :=
+           (mt : bytes -> bool) (items : list sitem) (gets : list (bytes * option ometa)) : bool :=
   let step (st : bool * list umeta) (it : sitem) : bool * list umeta :=
     let '(ok, m) := st in
     match it with
     | SBench wr mb kept after =>
         let vals := map (fun '(u, v) => rv v u) wr in
-        let '(k, any) := unit_filter_apply (beq lit) vals in
-        (ok && list_eqb Bool.eqb (map (unit_match (beq lit)) vals) mb
+        let '(k, any) := unit_filter_apply mt vals in
+        (ok && list_eqb Bool.eqb (map (unit_match mt) vals) mb
             && Bool.eqb any kept
             && list_eqb oval_eqb (map oval_of k) after, m)
     | SUnit u va recs =>
@@ -136,6 +177,19 @@ Definition seq_ok (tidyf : bytes -> bytes) (rv : b64 -> bytes -> value)
   let '(ok, m) := fold_left step items (true, []) in
   ok && forallb (fun '(x, got) =>
           option_eqb ometa_eqb (option_map ometa_of (units_find m (tidyf x) key_better)) got) gets.
+
+(** the oracle answers every question the model asks: each regexp on the
+    written and on the base unit of every measurement *)
+Definition re_complete (terms : list fterm) (orc : re_oracle) (items : list sitem) : bool :=
+  forallb (fun it => match it with
+    | SBench wr _ _ _ =>
+        forallb (fun '(u, _) =>
+          forallb (fun t => match t with
+            | TLit _ => true
+            | TRe p => match re_find orc p u, re_find orc p (snd (tidy isp b64_one u)) with
+                       | Some _, Some _ => true | _, _ => false end
+            end) terms) wr
+    | SUnit _ _ _ => true end) items.
 
 Definition corr_ok (c : case) : bool :=
   match c with
@@ -160,7 +214,12 @@ Definition corr_ok (c : case) : bool :=
          end
       && forallb (fun '(lit, got) => Bool.eqb (unit_match (beq lit) rv) got) fl
   | KSeq lit items gets =>
-      seq_ok (fun u => snd (tidy isp b64_one u)) (read_value isp) lit items gets
+      seq_ok (fun u => snd (tidy isp b64_one u)) (read_value isp) (beq lit) items gets
+  | KSeqF terms orc items gets =>
+      re_complete terms orc items
+      && seq_ok (fun u => snd (tidy isp b64_one u)) (read_value isp) (terms_match orc terms) items gets
+  | KTidySeq calls =>
+      forallb (fun '(u, v, t) => fb_eqb (tidy isp v u) t) calls
   end.
 
 (** the specification on what the implementation was seen to do *)
@@ -208,7 +267,17 @@ Definition prop_ok (c : case) : bool :=
          end
       (* .unit:lit keeps the value iff lit names the base or the written unit *)
       && forallb (fun '(lit, got) => Bool.eqb (beq lit su || beq lit u) got) fl
-  | KSeq lit items gets => seq_ok (spec_unit isp) (spec_value isp) lit items gets
+  | KSeq lit items gets => seq_ok (spec_unit isp) (spec_value isp) (beq lit) items gets
+  (* every measurement judged on its own: kept iff some member of the term
+     names its base unit or its written unit *)
+  | KSeqF terms orc items gets => seq_ok (spec_unit isp) (spec_value isp) (terms_match orc terms) items gets
+  (* every call, whatever was tidied before it in the process: exactly the
+     numerator ns/MB tokens rewritten, the value scaled per rewritten token; a
+     unit with nothing to rewrite (a base form) comes back unchanged with factor 1 *)
+  | KTidySeq calls =>
+      forallb (fun '(u, v, t) =>
+        beq (snd t) (spec_unit isp u) && b64_same (fst t) (b64_mul v (spec_factor isp u))
+        && (negb (beq (spec_unit isp u) u) || b64_same (fst t) v || b64_is_nan v)) calls
   end.
 
 Definition run_case (s : sx) : N :=
